@@ -24,7 +24,7 @@ def deep_round_factory(tol):
       if isinstance(j, float): _args[i] = round(j, tol) # don't round int
       elif isinstance(j, (str, unicode, type(BaseException()))): continue
       elif isinstance(j, dict): _args[i] = dict(zip(j.keys(), deep_round(*j.values())[0])) # keys need not be str
-      elif isiterable(j): #XXX: fails on the above, so don't iterate them
+      elif isiterable(j) and not hasattr(j, '__next__'): # (not an iterator)
         jtype = type(j)
         try: _args[i] = jtype(deep_round(*j)[0])
         except Exception: pass # can't rebuild (e.g. range, namedtuple): leave as is
@@ -32,7 +32,7 @@ def deep_round_factory(tol):
       if isinstance(j, float): _kwds[i] = round(j, tol)
       elif isinstance(j, (str, unicode, type(BaseException()))): continue
       elif isinstance(j, dict): _kwds[i] = dict(zip(j.keys(), deep_round(*j.values())[0])) # keys need not be str
-      elif isiterable(j): #XXX: fails on the above, so don't iterate them
+      elif isiterable(j) and not hasattr(j, '__next__'): # (not an iterator)
         jtype = type(j)
         try: _kwds[i] = jtype(deep_round(*j)[0])
         except Exception: pass # can't rebuild (e.g. range, namedtuple): leave as is
@@ -150,7 +150,7 @@ def shallow_round_factory(tol):
     if isinstance(iterable, float): return round(iterable, tol)
     if isinstance(iterable, (str, unicode)): return iterable # not a container
     from klepto.tools import isiterable
-    if not isiterable(iterable): return iterable
+    if not isiterable(iterable) or hasattr(iterable, '__next__'): return iterable
     itype = type(iterable)
     _iterable = list(iterable)
     for i,j in enumerate(iterable):
@@ -161,14 +161,10 @@ def shallow_round_factory(tol):
     _args = list(args)
     _kwds = kwds.copy()
     for i,j in enumerate(args):
-      try:
-        jtype = type(j)
-        _args[i] = jtype(around(j, tol))
+      try: _args[i] = around(j, tol)
       except: pass
     for i,j in kwds.items():
-      try:
-        jtype = type(j)
-        _kwds[i] = jtype(around(j, tol))
+      try: _kwds[i] = around(j, tol)
       except: pass
     return argstype(_args), _kwds
   return shallow_round
